@@ -42,3 +42,7 @@ chk("C11", "seq+crash", "explicit-state BFS with recovery oracle after every com
     "All histories within the bounds: after every batch commit and every DeleteNodes a trie reopened from just (root hash, weight) equals the model (weight, owner, value, verifying proof for every block); every prefix of the storage log inside the last operation leaves the last durably committed root recoverable. Failures matching the open finding C11-gc-ahead-of-commit are reported as KNOWN-FINDING and their branches cut.",
     "Crash model = prefix of the write log with atomic batches; Pebble replaced by an in-memory adapter; bounds 3-5 keys, depth 6 quick / 8-9 thorough.",
     "DESIGN.md section 4 C11")
+chk("C13", "seq", "explicit-state BFS over checkpoint/commit/rollback histories with recovery and storage-cleanliness oracles",
+    "All histories within the bounds: checkpoint (SaveRoot) on any committed state, any batch of further changes (new keys, changed values, same-value rewrites, delete-and-re-add, deletes), one commit at any collapse level, at most one intervening DeleteNodes, then Rollback() or RollbackTrie(): live trie equals the checkpoint model for every block, checkpoint root recoverable from storage, storage holds nothing that was not there at checkpoint time; exploration continues after the rollback (later GC passes must keep the checkpoint recoverable).",
+    "Bounds: 2-4 keys, depth 7-9; one commit between checkpoint and rollback; failures matching the open findings C13-rewritten-node-deleted / C11-* are reported as KNOWN-FINDING and their branches cut.",
+    "DESIGN.md section 4 C13")
